@@ -4,6 +4,7 @@ package pppoe
 
 import (
 	"bytes"
+	"context"
 	"net"
 
 	"github.com/codelaboratoryltd/bng/pkg/radius"
@@ -123,3 +124,89 @@ func VerifC04_OwnerThenForeign() {
 }
 
 func init() { vHarness["VerifC04_OwnerThenForeign"] = VerifC04_OwnerThenForeign }
+
+// verifEther wraps a PPPoE payload into an Ethernet frame from src to the server.
+func verifEther(src net.HardwareAddr, etherType uint16, payload []byte) []byte {
+	f := make([]byte, 0, 14+len(payload))
+	f = append(f, vMACServer...)
+	f = append(f, src...)
+	f = append(f, byte(etherType>>8), byte(etherType))
+	return append(f, payload...)
+}
+
+// Through the REAL receive loop (one receive buffer reused for every frame): the owner opens a session with a
+// PADR, then an arbitrary frame arrives from a foreign MAC. The session still belongs to the owner and the foreign
+// frame did not change or terminate it.
+func VerifC04_ReceiveLoopOwner() {
+	s, sock := verifServer()
+	padr := &PPPoEHeader{VerType: 0x11, Code: CodePADR, SessionID: 0}
+	tags := SerializeTags([]Tag{{Type: TagServiceName, Value: []byte("internet")}, {Type: TagACCookie, Value: []byte("0123456789abcdef")}})
+	padr.Length = uint16(len(tags))
+	data := vInput("frame")
+	etherType := []uint16{EtherTypePPPoEDiscovery, EtherTypePPPoESession}[ndPick("ethertype", 2)]
+	sock.rx = [][]byte{
+		verifEther(vMACOwner, EtherTypePPPoEDiscovery, append(padr.Serialize(), tags...)),
+		verifEther(vMACForeign, etherType, data),
+	}
+	func() {
+		defer func() {
+			if r := recover(); r != nil {
+				if _, ok := r.(vStop); !ok {
+					panic(r)
+				}
+			}
+		}()
+		s.receiveLoop(context.Background())
+	}()
+	vRunPending()
+	all := s.sessions.GetAllSessions()
+	vAssert(len(all) >= 1, "a frame from a MAC that does not own the session terminated it (the owner's PADR had created it)")
+	ss := s.sessions.GetSessionByMAC(vMACOwner)
+	vAssert(ss != nil, "the owner's session is no longer found under the owner's MAC after a frame from another MAC")
+	if ss == nil {
+		return
+	}
+	pre := ss.GetState()
+	_ = pre
+	vAssert(bytes.Equal(ss.ClientMAC, vMACOwner), "the session's owner MAC changed when a frame from another MAC was received")
+	vAssert(s.sessions.GetSession(ss.ID) == ss, "a frame from a MAC that does not own the session terminated it")
+	vAssert(s.sessions.GetSessionByMAC(vMACForeign) == nil || s.sessions.GetSessionByMAC(vMACForeign) != ss, "the session became reachable under the foreign MAC")
+	vReach("end")
+}
+
+func init() { vHarness["VerifC04_ReceiveLoopOwner"] = VerifC04_ReceiveLoopOwner }
+
+// A subscriber with a session of its own sends an arbitrary frame: the OTHER subscriber's session must be untouched
+// (owning some session gives no rights over another one).
+func VerifC04_CrossSession() {
+	s, sock := verifServer()
+	victim, err := s.sessions.CreateSession(vMACOwner, s.serverMAC)
+	vAssume(err == nil)
+	victim.State = SessionState(ndInt("state", int(StateLCPNegotiation), int(StateEstablished)))
+	victim.Authenticated = victim.State >= StateIPCPNegotiation
+	other, err := s.sessions.CreateSession(vMACOwner2, s.serverMAC)
+	vAssume(err == nil)
+	other.State, other.Authenticated = StateEstablished, true
+	pre := verifSnap(victim)
+	bytesIn := victim.BytesIn
+	data := vInput("frame")
+	if ndPick("ethertype", 2) == 0 {
+		s.handleDiscovery(vMACOwner2, data)
+	} else {
+		s.handleSession(vMACOwner2, data)
+	}
+	vRunPending()
+	now := verifSnap(victim)
+	live := s.sessions.GetSession(victim.ID) == victim
+	vAssert(live && now.state == pre.state && now.authed == pre.authed && now.lcpID == pre.lcpID && now.user == pre.user && (now.ip == nil) == (pre.ip == nil),
+		"a frame from a MAC that does not own the session changed or terminated it")
+	vAssert(victim.BytesIn == bytesIn, "a frame from another subscriber was counted on the session")
+	for _, f := range sock.frames {
+		if len(f) >= 18 && f[12] == 0x88 && f[13] == 0x64 {
+			vAssert(uint16(f[16])<<8|uint16(f[17]) != victim.ID, "a frame from another subscriber was answered on the session")
+		}
+	}
+	vReach("end")
+}
+
+func init() { vHarness["VerifC04_CrossSession"] = VerifC04_CrossSession }
